@@ -503,8 +503,10 @@ impl<'input> Parser<'input> {
     /// other node.
     pub(crate) fn checkpoint_node(&mut self) -> Checkpoint {
         // We may start a new node here in the future, so let's process
-        // our preceding whitespace first
-        self.push_ignored();
+        // our preceding whitespace first (unless it would end up outside of the root)
+        if !self.builder.borrow().at_root() {
+            self.push_ignored();
+        }
 
         #[cfg(apollo_rs_verif)]
         crate::verif_trace::emit("Ckpt", 0, 0, 0);
